@@ -344,7 +344,8 @@ var kinds = []kind{
 	{name: "failing helper in else-if condition, second else-if", family: "failing-helper", lead: "<%= if (false) { %>\nc\n<% } else if (false) { %>\nc2\n", tag: `<% } else if (boom()) { %>`, tail: `d<% } else { %>e<% } %>`, runtime: true, late: true},
 	{name: "wrong argument type", family: "type-error", tag: `<%= takesInt("a") %>`, runtime: true, late: true},
 	{name: "too many arguments", family: "type-error", tag: `<%= len(1, 2, 3) %>`, runtime: true, late: true},
-	{name: "too few arguments to a template function", family: "type-error", setup: "<% let f1 = fn(p) { %>\n<%= p %>\n<% } %>\n\n", tag: `<%= f1() %>`, runtime: true, late: true},
+	// (a template function called with too few arguments is not a kind: whether that fails at the call or where the
+	// body reads the unbound parameter is not stated)
 	{name: "no such method", family: "type-error", tag: `<%= one.Foo() %>`, runtime: true, late: true},
 	{name: "string times int", family: "type-error", tag: `<%= "a" * 2 %>`, runtime: true, late: true},
 	{name: "float by int", family: "type-error", tag: `<%= 1.5 / 0 %>`, runtime: true, late: true},
@@ -526,6 +527,9 @@ var apisCached = []api{
 
 var lineRE = regexp.MustCompile(`^line (\d+): `)
 
+// innerLine: a line number a message mentions in its own text, not at the start of a line of the error text
+var innerLine = regexp.MustCompile(`([^\n])line \d+`)
+
 type msgLine struct {
 	n    int
 	rest string
@@ -649,7 +653,9 @@ func check(r *vk.Run, c Case) *vk.Fail {
 			for _, m := range msgs {
 				want = append(want, fmt.Sprintf("line %d: %s", m.n+k, m.rest))
 			}
-			if w := strings.Join(want, "\n"); text2 != w {
+			// a message may mention further lines in its own words ("... of the if on line 2"): those numbers are
+			// not the leading N; whether they move is the message's business
+			if w := strings.Join(want, "\n"); text2 != w && innerLine.ReplaceAllString(text2, "${1}line #") != innerLine.ReplaceAllString(w, "${1}line #") {
 				return fail("%s after prepending %d line(s) %q the error is %q, want %q (unshifted: %q)", api.name, k, string(c.ShiftText), text2, w, text)
 			}
 		}
@@ -937,7 +943,7 @@ var rule = "Templates = prefix + [setup] + context opener + ONE failing tag + ta
 	"Gaps after the failing construct: none, space, LF, space LF, CR LF; 4 suffixes. " +
 	"Oracle (from the statement, by counting line feeds in the generated text, never from the lexer): (1) every message line of the error starts with 'line N: '; " +
 	"(2) N of the first message = line of the failing tag if it lies on one line, else within [first,last] line of the tag (to the end of input for an unterminated tag); " +
-	"(3) after prepending k in 1..50 (E7: also 127..65536) lines of literal text (empty or not) the error is byte-identical except that every leading N became N+k. Parse and Render are both judged. " +
+	"(3) after prepending k in 1..50 (E7: also 127..65536) lines of literal text (empty or not) the error is byte-identical except that every leading N became N+k (line numbers a message mentions in its own words, not at the start of a line, may move or stay). Parse and Render are both judged. " +
 	"E5 and a quarter of the random run-time cases repeat this with plush.CacheEnabled on, in both evaluation orders (unshifted first / shifted first), and execute one parsed template twice. " +
 	"Non-trivial: the failing tag does not start on line 1 (there is something to count); distinct by template text + shifts + cache mode."
 
